@@ -49,7 +49,7 @@ func genC09(rt *rapid.T) CaseC09 {
 	m := rapid.IntRange(2, 9).Draw(rt, "nacts")
 	for i := 0; i < m; i++ {
 		c.Acts = append(c.Acts, ActC09{
-			Kind: rapid.SampledFrom([]string{"write", "write", "replicate", "replicate", "load"}).Draw(rt, "kind"),
+			Kind: rapid.SampledFrom([]string{"write", "write", "replicate", "replicate", "load", "racewrite", "racewrite"}).Draw(rt, "kind"),
 			DB:   rapid.IntRange(0, n-1).Draw(rt, "db"),
 			N:    rapid.IntRange(1, 4).Draw(rt, "n"),
 		})
@@ -186,6 +186,7 @@ func execC09(c CaseC09) *Outcome {
 	nonTrivial := false
 	for ai, a := range c.Acts {
 		d := a.DB % n
+		other := -1 // a second database touched by the action (racewrite)
 		before := make([]dbSnap, n)
 		for i := 0; i < n; i++ {
 			before[i] = snap(i)
@@ -202,6 +203,30 @@ func execC09(c CaseC09) *Outcome {
 				}
 				cnt++
 			}
+		case "racewrite":
+			// the announcement of a write on d is held in its (slow) peer lookup while another database is written
+			e := (d + 1 + a.N) % n
+			if e == d {
+				e = (d + 1) % n
+			}
+			other = e
+			release, parked := w.HoldPeers(0, addrs[d])
+			if _, err := writeAny(ctx, st[0][d], c.DBs[d].Type, 0, 3, cnt); err != nil {
+				release()
+				return fail("action %d: write failed: %v", ai, err)
+			}
+			cnt++
+			world.WaitFor(func() bool { return parked() > 0 }, 5*time.Second)
+			sent := w.LogLen()
+			if _, err := writeAny(ctx, st[0][e], c.DBs[e].Type, 1, 3, cnt); err != nil {
+				release()
+				return fail("action %d: write failed: %v", ai, err)
+			}
+			cnt++
+			// let the second write's announcement go out (it is not held), then release the first
+			world.WaitFor(func() bool { return w.LogLen() > sent }, 5*time.Second)
+			time.Sleep(500 * time.Microsecond)
+			release()
 		case "load":
 			if err := st[0][d].Load(ctx, -1); err != nil {
 				return fail("action %d: Load failed: %v", ai, err)
@@ -246,7 +271,7 @@ func execC09(c CaseC09) *Outcome {
 		desc := fmt.Sprintf("action %d (%s on database %d of %d)", ai, a.Kind, d, n)
 		// (b) the other databases did not change
 		for i := 0; i < n; i++ {
-			if i == d {
+			if i == d || i == other {
 				continue
 			}
 			after := snap(i)
@@ -276,7 +301,7 @@ func execC09(c CaseC09) *Outcome {
 			if m.Kind == "topic" && msg.Address != m.Topic {
 				return fail("%s: a message naming database %s was published on the topic of %s", desc, short(msg.Address), short(m.Topic))
 			}
-			if m.From == 0 && msg.Address != addrs[d] {
+			if m.From == 0 && msg.Address != addrs[d] && (other < 0 || msg.Address != addrs[other]) {
 				return fail("%s: the instance sent a %s message for another database (%s)", desc, m.Kind, short(msg.Address))
 			}
 			for _, h := range msg.Heads {
@@ -290,7 +315,7 @@ func execC09(c CaseC09) *Outcome {
 		evs := append([]seen{}, events...)
 		evMu.Unlock()
 		for _, e := range evs {
-			if e.addr != addrs[d] {
+			if e.addr != addrs[d] && (other < 0 || e.addr != addrs[other]) {
 				return fail("%s: a %q event was emitted with the address of another database", desc, e.kind)
 			}
 			for _, en := range e.entries {
